@@ -26,28 +26,33 @@ theorem kv_write_law (d d' : DB) (kv : KVRec) (n : Nat) (h : d.applyKV kv = .ok 
       else kvGet d.kv k :=
   applyKV_get d d' kv n h k
 
-/-- result codes of a KV write: `Updated = 0`, `Finalized = 1`, `Rejected = 2`, decided exactly as the law says -/
+/-- the three result codes are pairwise distinct (values regenerated from the Go constants) -/
+theorem kv_codes_distinct : DBKVUpdated ≠ DBKVFinalized ∧ DBKVUpdated ≠ DBKVRejected ∧ DBKVFinalized ≠ DBKVRejected := by decide
+theorem def_codes_distinct : Gen.DBUpdated ≠ Gen.ShardExists ∧ Gen.DBUpdated ≠ Gen.DBBootstrapped ∧ Gen.ShardExists ≠ Gen.DBBootstrapped := by decide
+
+/-- result codes of a KV write (`Updated`, `Finalized`, `Rejected`), decided exactly as the law says -/
 theorem kv_write_code (d d' : DB) (kv : KVRec) (n : Nat) (h : d.applyKV kv = .ok (d', n)) :
     n = match kvGet d.kv kv.key with
-        | none => 0
-        | some old => if old.finalized then 1
-                      else if old.instanceId = kv.instanceId ∨ old.instanceId = kv.oldInstanceId then 0 else 2 := by
+        | none => DBKVUpdated
+        | some old => if old.finalized then DBKVFinalized
+                      else if old.instanceId = kv.instanceId ∨ old.instanceId = kv.oldInstanceId then DBKVUpdated
+                      else DBKVRejected := by
   unfold DB.applyKV at h
   split at h
   · cases h
   · split at h
-    · rename_i hn; simp only [Outcome.ok.injEq, Prod.mk.injEq] at h; simp [hn, ← h.2, DBKVUpdated]
+    · rename_i hn; simp only [Outcome.ok.injEq, Prod.mk.injEq] at h; simp [hn, ← h.2]
     · rename_i old hs
       split at h
-      · rename_i hf; simp only [Outcome.ok.injEq, Prod.mk.injEq] at h; simp [hs, hf, ← h.2, DBKVFinalized]
+      · rename_i hf; simp only [Outcome.ok.injEq, Prod.mk.injEq] at h; simp [hs, hf, ← h.2]
       · rename_i hf
         split at h
         · rename_i hc
           simp only [Bool.or_eq_true, beq_iff_eq] at hc
-          simp only [Outcome.ok.injEq, Prod.mk.injEq] at h; simp [hs, hf, hc, ← h.2, DBKVUpdated]
+          simp only [Outcome.ok.injEq, Prod.mk.injEq] at h; simp [hs, hf, hc, ← h.2]
         · rename_i hc
           simp only [Bool.or_eq_true, beq_iff_eq] at hc
-          simp only [Outcome.ok.injEq, Prod.mk.injEq] at h; simp [hs, hf, hc, ← h.2, DBKVRejected]
+          simp only [Outcome.ok.injEq, Prod.mk.injEq] at h; simp [hs, hf, hc, ← h.2]
 
 /-- a write with an empty key or value is refused by a fail-stop (the Go `panic`), never stored -/
 theorem kv_empty_refused (d : DB) (kv : KVRec) (h : kv.key = [] ∨ kv.value = []) :
@@ -62,13 +67,13 @@ theorem finalized_immutable (cs : List Cmd) (d d' : DB) (h : runCmds d cs = .ok 
     kvGet d'.kv k = some r :=
   Drummer.finalized_immutable cs d d' h k r hr hf
 
-/-- **definition gate, one submission**: well-formed submission ⇒ result `2` and no change once bootstrapped,
-result `1` and no change if the id is already defined, else result `0` and the definition is added in front. -/
+/-- **definition gate, one submission**: well-formed submission ⇒ result `Bootstrapped` and no change once bootstrapped,
+result `Exists` and no change if the id is already defined, else result `Updated` and the definition is added in front. -/
 theorem definition_gate (d d' : DB) (c : ShardDef) (n : Nat) (h : d.applyShard c = .ok (d', n)) :
-    (d.bootstrapped = true → d' = d ∧ n = 2) ∧
-    (d.bootstrapped = false → d.shards.any (·.shardId == c.shardId) = true → d' = d ∧ n = 1) ∧
+    (d.bootstrapped = true → d' = d ∧ n = Gen.DBBootstrapped) ∧
+    (d.bootstrapped = false → d.shards.any (·.shardId == c.shardId) = true → d' = d ∧ n = Gen.ShardExists) ∧
     (d.bootstrapped = false → d.shards.any (·.shardId == c.shardId) = false →
-        d' = { d with shards := c :: d.shards } ∧ n = 0) := by
+        d' = { d with shards := c :: d.shards } ∧ n = Gen.DBUpdated) := by
   unfold DB.applyShard at h
   split at h
   · cases h
@@ -123,6 +128,6 @@ example : (match demo with
         runCmds ({} : DB) [.kv recA, .kv recFin, .tick, .kv recLate] = .ok d
     | .panic _ => False) := by
   simp [demo, bind, DB.applyKV, DB.apply, DB.applyTick, kvGet, kvPut, recA, recFin, recLate, k1, runCmds,
-    DBKVUpdated, DBKVFinalized, tickInterval, pure]
+    DBKVUpdated, DBKVFinalized, tickInterval, pure, Gen.DBKVUpdated, Gen.DBKVFinalized, Gen.tickIntervalSecond]
 
 end Drummer.C13
